@@ -158,6 +158,12 @@ impl MqttState {
         }
         self.outgoing_rel.clear();
 
+        // a publish parked on a packet-id collision was accepted as well: carry it over
+        // behind the publish that holds its id (it parks again until that one is acked)
+        if let Some(publish) = self.collision.take() {
+            pending.push(Request::Publish(publish));
+        }
+
         // remove packed ids of incoming qos2 publishes
         self.incoming_pub.clear();
 
